@@ -21,10 +21,11 @@
                       header block; a single valid Content-Length is present; Transfer-Encoding: chunked;
                       delta = bytes sent after the header block minus the declared length (0: exact); the
                       connection was closed right after the response ]
-     [k |-> "input", ...] (scenario description) and [k |-> "end"] carry no obligations.                   *)
+     [k |-> "input", site, proto, srck, src, lines] (scenario description; lines = number of lines of the payload, > 1
+     when it contains LF / CRLF) and [k |-> "end"] carry no obligations.                   *)
 EXTENDS Verif
 
-MonInit == [bad |-> <<>>, wit |-> {}, pages |-> 0]
+MonInit == [bad |-> <<>>, wit |-> {}, pages |-> 0, lines |-> 1]
 
 IsHtml(ev) == ev.html0 \/ ev.ctype = "html"
 
@@ -60,8 +61,12 @@ PageWit(ev) ==
        \cup (IF ev.proto = "h1" /\ ev.closed THEN {"h1_closed"} ELSE {})
 
 MonStep(m, ev) ==
-  IF ev.k = "page"
-    THEN [m EXCEPT !.bad = Clause(m, ev), !.pages = @ + 1, !.wit = @ \cup PageWit(ev)]
+  IF ev.k = "input" THEN [m EXCEPT !.lines = Get(ev, "lines", 1)]
+  ELSE IF ev.k = "page"
+    THEN [m EXCEPT !.bad = Clause(m, ev), !.pages = @ + 1,
+                   !.wit = @ \cup PageWit(ev)
+                           \cup (IF m.lines > 1 /\ IsHtml(ev) /\ ev.refl /\ Has(ev.src, "lt") /\ Has(ev.dec, "lt")
+                                 THEN {"multiline_escaped_lt"} ELSE {})]
   ELSE IF ev.k = "end" /\ m.pages = 0 THEN [m EXCEPT !.wit = @ \cup {"no_page"}]
   ELSE m
 Wit(m) == m.wit
